@@ -25,5 +25,6 @@ def counting(ctx, name, keyterm, witness=False, tail=False):
         tw = z3.Function('twit!' + name, V, z3.IntSort(), z3.IntSort(), z3.IntSort())
         n_ = smt.fresh_int('n')
         ctx.facts.append(z3.ForAll([kap, j, n_], z3.Implies(z3.And(1 <= j, j <= n_, C(kap, n_) > C(kap, j)),
-                                                           z3.And(j <= tw(kap, j, n_), tw(kap, j, n_) < n_, keyterm(tw(kap, j, n_)) == kap))))
+                                                           z3.And(j <= tw(kap, j, n_), tw(kap, j, n_) < n_, keyterm(tw(kap, j, n_)) == kap)),
+                                   patterns=[z3.MultiPattern(C(kap, n_), C(kap, j))]))
     return C
